@@ -880,4 +880,94 @@ META['declined'] = [
     for _d in META['declined']]
 
 
-RULES = [pupil_aberration, intensity_used, c03_trace_entry, c03_fields, arg_forward_rule, no_stale, records, arg_names_rule, list_space, record_fresh, operand_attr, parabasal, distortion, radii]
+def grid_ftheta(ctx):
+    """'distortion is the relative departure of the chief-ray image height
+    from the paraxial image height' with the f-theta reference: the ideal
+    image of a field direction at polar angle theta from the axis lies at the
+    radius f * theta (in the azimuth of the field).  On a grid the polar
+    angle depends on both field angles, so in the f-theta arm each reference
+    coordinate must depend on Hx and Hy; (f * theta_x, f * theta_y) is not a
+    radial f-theta law (it agrees with it on the axes only)."""
+    P = ctx.P
+    res = Result('GRID-FTHETA', 'GridDistortion f-theta reference is radial: '
+                 'r = f * (polar field angle)')
+    f = P.func('GridDistortion._generate_data')
+    res.saw(f)
+    arm = None
+    for n in ast.walk(f.node):
+        if isinstance(n, ast.If) and "'f-theta'" in unparse(n.test):
+            arm = n.body
+    if arm is None:
+        raise AnalysisError('GridDistortion: f-theta arm not found')
+    deps = {}
+    for st in arm:
+        if isinstance(st, ast.Assign) and isinstance(st.targets[0], ast.Name):
+            deps[st.targets[0].id] = {x.id for x in ast.walk(st.value)
+                                      if isinstance(x, ast.Name)}
+    # transitive closure over the locals of the arm
+    def closure(nm, seen=()):
+        out = set()
+        for d in deps.get(nm, ()):
+            out.add(d)
+            if d in deps and d not in seen:
+                out |= closure(d, seen + (nm,))
+        return out
+    okx = {'Hx', 'Hy'} <= closure('xp')
+    oky = {'Hx', 'Hy'} <= closure('yp')
+    if okx and oky:
+        res.ok('f-theta reference coordinates depend on the polar field angle')
+    else:
+        res.fail(ctx.finding(
+            'GRID-FTHETA', f, arm[0],
+            "GridDistortion(distortion_type='f-theta') measures against "
+            "(f theta_x, f theta_y), each from its own field angle, instead "
+            "of the radial f theta: at the grid corner of the Cooke triplet "
+            "max_distortion is 2.1429 % where the radial law - and the "
+            "library's own 1-D f-theta Distortion at the corner's polar "
+            "angle of 19.61 deg - gives 4.1605 %",
+            construct='grid f-theta reference not radial'))
+    return res
+
+
+def image_frame(ctx):
+    """spot statistics are distances measured in the image surface.  The
+    per-surface records are written after globalize, i.e. in the global frame;
+    for an image surface that is tilted or reached through a fold mirror the
+    global x / y are not coordinates in that surface.  Necessary structure:
+    the spot data pass through the frame of the image surface (localize / its
+    coordinate system) before radii are formed."""
+    P = ctx.P
+    res = Result('IMAGE-FRAME', 'spot coordinates are taken in the frame of '
+                 'the image surface')
+    f = P.func('SpotDiagram._generate_field_data')
+    res.saw(f)
+    src = unparse(f.node, 100000)
+    reads_global = 'surface_group.x[-1' in src and 'surface_group.y[-1' in src
+    localized = any(k in src for k in ('localize', 'image_surface.geometry.cs',
+                                       'get_rotation_matrix',
+                                       'position_in_gcs'))
+    rec = P.func('Surface._record')
+    tr = P.func('Surface._trace_real')
+    res.saw(rec), res.saw(tr)
+    seq = [c.func.attr for c in ast.walk(tr.node) if isinstance(c, ast.Call)
+           and isinstance(c.func, ast.Attribute) and
+           c.func.attr in ('globalize', '_record')]
+    after_globalize = 'globalize' in seq and '_record' in seq and \
+        seq.index('globalize') < seq.index('_record')
+    if not (reads_global and after_globalize) or localized:
+        res.ok('spot data are expressed in the image surface frame')
+    else:
+        res.fail(ctx.finding(
+            'IMAGE-FRAME', f, f.node,
+            'SpotDiagram (and EncircledEnergy, RayFan, '
+            'RayOperand.rms_spot_size in the same way) reads '
+            'surface_group.x / y[-1], which are recorded after globalize: '
+            'behind a 45 deg fold mirror with the image surface at rx = pi/2 '
+            'the RMS radius is 0.03114 instead of 0.04404 (1/sqrt 2) and the '
+            'centroid height 18.0 instead of 2.62; with an image plane '
+            'tilted by 30 deg the RMS radius is 7-8 % low',
+            construct='spot coordinates in the global frame'))
+    return res
+
+
+RULES = [image_frame, grid_ftheta, pupil_aberration, intensity_used, c03_trace_entry, c03_fields, arg_forward_rule, no_stale, records, arg_names_rule, list_space, record_fresh, operand_attr, parabasal, distortion, radii]
